@@ -12,7 +12,13 @@
     P<id>=<name>                       publisher object and its StructName
     h=<name>:<subId>:<subTopic>:<pubSpec>:<pubTopic>:<mwOut>
                                        AddHandler; pubSpec = p<id> | np (AddNoPublisherHandler) | nil (nil publisher)
-    D<id> / E<id>                      AddPublisherDecorators / AddSubscriberDecorators (recording decorator number id)
+    D<id> / E<id>                      AddPublisherDecorators / AddSubscriberDecorators (recording decorator number id);
+                                       with a trailing `!` the decorator returns an error the first time it is applied
+                                       (RunHandlers fails and is called again until it succeeds)
+    K                                  the application puts values of its own into the message context under the PLAIN
+                                       STRING keys "handler_name", "publisher_name", "subscriber_name", "subscribe_topic",
+                                       "publish_topic" (in a subscriber decorator and in a middleware, i.e. after the router
+                                       has set its values); the router's keys are of a private type, nothing may change
     RUN                                Run (first) / RunHandlers (later); handlers declared after it are added to the
                                        running router; a final RunHandlers is implied before the messages arrive
     d=<subId>:<topic>:<mid>:<shape>[:<ctx>[:<done>]]
@@ -153,11 +159,14 @@ def addTok (r : Req) (tok : String) : Option Req :=
       pure { r with ds := r.ds ++ [⟨sub, t, mid, sh, cx, dn⟩] }
     | _ => none
   | [['R', 'U', 'N']] => pure { r with st := rstep r.st .runHandlers, raw := r.raw ++ [.run] }
+  | [['K']] => pure r      -- application values under plain string keys: invisible to the router's accessors
   | [('D' :: id)] => do
-    let id ← natOf id
+    -- `D<id>!`: the decorator fails the first time it is applied; RunHandlers reports the error and is retried –
+    -- a failed attempt commits nothing for the handler it failed on, so the retry ends like a call that never failed
+    let id ← natOf (if id.getLast? == some '!' then id.dropLast else id)
     pure { r with st := rstep r.st (.pubDec id), raw := r.raw ++ [.dec true id] }
   | [('E' :: id)] => do
-    let id ← natOf id
+    let id ← natOf (if id.getLast? == some '!' then id.dropLast else id)
     pure { r with st := rstep r.st (.subDec id), raw := r.raw ++ [.dec false id] }
   | ('W' :: id) :: [name] => do
     let id ← natOf id
@@ -325,7 +334,12 @@ def judgeMsg (i : Nat) (h : HCfg) (pd sd : List Nat) (d : Delivery) (m : OMsg) :
       | .outs rs => some ((if h.fnMute then [] else rs.map refStr) ++ (List.range h.mwOut).map fun k => "m" ++ toString k)
     match returned with
     | none => if m.calls.isEmpty then "ok" else "violated:published_elsewhere"
-    | some [] => if m.calls.isEmpty then "ok" else "violated:published_elsewhere"
+    | some [] =>
+      if !m.calls.isEmpty then "violated:published_elsewhere"
+      -- "a handler registered without a publisher whose chain NEVERTHELESS RETURNS MESSAGES gets a Nack": one whose
+      -- chain returns none (and no error) does not
+      else if h.pub.isNone && m.settle == "N" then "violated:nopub_nack_without_outputs"
+      else "ok"
     | some outs =>
       match h.pub with
       | none =>
